@@ -1220,3 +1220,56 @@ func ruleCommittedOffsetRoles(r *core.Run, p *core.Prog) {
 		r.Undecided(rule, "uses", "-", fmt.Sprintf("only %d uses of CurrentOffset found", n))
 	}
 }
+
+// ruleDirOpenFresh: a writer may start a day from empty metadata only when the metadata file does not exist. Any other
+// failure to open it (EIO, EACCES, EMFILE …) must abort the open: starting fresh would rewrite the column files from offset
+// 0 and replace the metadata of all committed blocks of the day.
+func ruleDirOpenFresh(r *core.Run, p *core.Prog) {
+	const rule = "open-resume"
+	f := r.MustFunc(rule, pkgGpfile, "GPDir.Open")
+	if f == nil {
+		return
+	}
+	info := f.Info()
+	g := core.GraphOf(f)
+	cases := enumTests(f.Decl.Body)
+	_ = cases
+	cl := func(n ast.Node, cond *bool) []ev {
+		var out []ev
+		if cond != nil {
+			atom, truth := normCond(n.(ast.Expr), *cond)
+			if c, ok := atom.(*ast.CallExpr); ok && core.CallName(info, c) == "errors.Is" && len(c.Args) == 2 && core.Str(c.Args[1]) == "fs.ErrNotExist" {
+				out = append(out, ev{label: map[bool]string{true: "missing", false: "other-error"}[truth]})
+			}
+			return out
+		}
+		for _, c := range core.Calls(n, false) {
+			switch core.CallName(info, c) {
+			case pkgGpfile + ".newMetadata":
+				out = append(out, ev{label: "fresh", node: c})
+			case pkgGpfile + ".GPDir.Unmarshal":
+				out = append(out, ev{label: "decode", node: c})
+			}
+		}
+		return out
+	}
+	ts, ok := traces(f, g, cl, 5000)
+	if !ok {
+		r.Undecided(rule, "GPDir.Open:paths", p.Rel(f.Decl.Pos()), "too many paths")
+		return
+	}
+	bad, nFresh := "", 0
+	for _, t := range ts {
+		if !t.has("fresh") {
+			continue
+		}
+		nFresh++
+		if !t.has("missing") || t.first("missing") > t.first("fresh") {
+			bad = "the day is started from empty metadata without errors.Is(err, fs.ErrNotExist) having been found true: another failure to open the metadata file (I/O error, permissions, descriptor limit) would make the writer overwrite all committed blocks of the day: " + pathLines(p, g, t.path)
+		}
+		if t.has("decode") {
+			bad = "fresh metadata and decoding of an existing file on one path: " + pathLines(p, g, t.path)
+		}
+	}
+	r.Check(rule, "GPDir.Open:fresh-metadata-only-if-file-missing", p.Rel(f.Decl.Pos()), bad == "" && nFresh > 0, bad)
+}
